@@ -65,6 +65,7 @@ PURE_MODELLED = ["modelled, not verified: Rust slice indexing semantics (start <
 PROPS["C15"] = {
     "quick": [("hex15", 60, 12)],
     "thorough": [("hex15", 30000, 18)],
+    "deep": [("hex15", 4000, 14)],
     "pure": True,
     "rule": "exhaustive small scope: every length 0..=12 (thorough 18) x {from_vec, heap, inline with zero / 0xFF / counting padding} x every index 0..len+2 and usize::MAX(-1) x every (start,end) of the six range kinds over the same set, x all pairs for ==, plus boundary and seeded random 64-bit patterns and random byte strings, the narrower From conversions (8/16/32-bit patterns incl. f32 NaN payloads), to_bool/is_empty on every representation, and from_str_bytes/to_utf8 on boundary code points of every encoded width, byte strings that are almost UTF-8 (overlong forms, surrogates, beyond U+10FFFF, truncated, stray continuation bytes) and random texts with one byte damaged; each line also carries the answer of the real byte slice; distinct_nontrivial = distinct operation lines executed",
     "modelled": PURE_MODELLED,
@@ -72,6 +73,7 @@ PROPS["C15"] = {
 PROPS["C16"] = {
     "quick": [("concat16", 0, 12)],
     "thorough": [("concat16", 0, 24)],
+    "deep": [("concat16", 0, 17)],
     "pure": True,
     "model_variants": ["--concat-repaired"],
     "rule": "exhaustive: every pair of lengths 0..=12 (thorough 24) in every combination of the representations (from_vec, heap, inline with three paddings); distinct_nontrivial = distinct concat lines executed",
@@ -81,6 +83,7 @@ PROPS["C16"] = {
 PROPS["C17"] = {
     "quick": [("label17", 600, 3)],
     "thorough": [("label17", 200000, 4)],
+    "deep": [("label17", 40000, 3)],
     "pure": True,
     "rule": "all strings of length 0..=3 (thorough 4) over a 14-character alphabet (ASCII letters/digits, + -, alpha, rho, nu, e-acute, a 4-byte character, blank), seeded random strings up to length 10, index texts on both sides of every boundary, canonical label values (Greek, Alpha boundaries, random Str of 2..8) with print-parse and kid() lookups on a real graph; distinct_nontrivial = distinct lines executed",
     "modelled": PURE_MODELLED,
@@ -131,8 +134,8 @@ PROPS["C20"] = {
 
 ALGO_MODELLED = CORE_MODELLED + ["modelled, not verified: the iteration order of HashSet/HashMap (the closure theorem holds for every drain order; the mapping table is only looked up), anyhow error texts (the ids after 'missed:' are extracted)"]
 PROPS["C11"] = {
-    "quick": [("merge", 400, 0)],
-    "thorough": [("merge", 60000, 0)],
+    "quick": [("merge", 400, 0), ("mergemix", 200, 0)],
+    "thorough": [("merge", 60000, 0), ("mergemix", 10000, 0)],
     "rule": "pairs of random rooted labelled trees (1..7 vertices each, 1..4 labels so that paths overlap, random data placement in both Hex representations, random injections of ids into the capacity, some data of the left tree already read), every choice of `left`; observe before and after, then every present vertex of the left graph is read (drain) and compared with the reference run of the same algorithm; non-trivial = a history whose merge created or matched at least one vertex (>= 5 judged calls)",
     "nontrivial": "any5",
     "modelled": ALGO_MODELLED,
